@@ -157,6 +157,54 @@ reg('C14',
     'Deck large enough for b*r boards (generator bounds r).',
     'DESIGN.md 4 C14')
 
+reg('C16',
+    'Hypothesis-generated hands + metadata/user fields: PHH dumps/loads'
+    ' round trip, replay differential, corruption injection',
+    'Round-trip and replay oracles over the 11 PHH variants: object and'
+    ' text fixed points, player-level operations/stacks/payoffs of the'
+    ' replay, regenerated text, truncated histories, corrupted histories'
+    ' must raise.',
+    'Single-line strings without triple apostrophes; partial stud histories'
+    ' cut at a betting decision.',
+    'DESIGN.md 4 C16')
+reg('C17',
+    'Hypothesis-generated FT/NT hands vs an independent protocol renderer;'
+    ' parse-back round trip',
+    'Differential test of to_pluribus_protocol and every to_acpc_protocol'
+    ' message for every seat against pkv/props/c17.py:render; closing the'
+    ' loop through from_acpc_protocol.',
+    'Integer chips, equal stacks, blinds only, showdown decided by the'
+    ' engine (the protocols have no muck action).',
+    'DESIGN.md 4 C17')
+reg('C18',
+    'exhaustive enumeration of range notations vs an independent'
+    ' enumerator + Hypothesis deals/ICM vectors with split and engine-payoff'
+    ' oracles',
+    'Finite notation space enumerated completely; equities compared with an'
+    ' independent split and with the engine\'s own payoffs for the same'
+    ' cards; ICM algebraic laws.',
+    'Equities within 1e-9; sampled (partial) deals only checked for'
+    ' non-negativity, sum and convex bounds.',
+    'DESIGN.md 4 C18')
+reg('C19',
+    'exhaustive card text round trip + Hypothesis metamorphic twins over'
+    ' equivalent chip/card notations, invalid-layout injection, helper'
+    ' identities',
+    'Metamorphic equality of states built from equivalent notations (same'
+    ' shuffle); every invalid layout class must raise ValueError;'
+    ' divmod/rake parts add up.',
+    'Mappings do not address a position twice.',
+    'DESIGN.md 4 C19')
+reg('C20',
+    'Hypothesis-generated NLHE hands rendered into six site formats by'
+    ' independent renderers, imported and replayed; illegal-amount injection',
+    'Round trip source hand -> site log -> importer -> replay: players,'
+    ' seats, blinds, stacks, cards, raise-to amounts and final stacks; an'
+    ' illegal amount must be reported.',
+    'No real corpora offline: decides consistency between a written-down'
+    ' convention and the importer (see DESIGN.md C20 L).',
+    'DESIGN.md 4 C20')
+
 NOT_APPLICABLE = {}
 
 ALL = [f'C{i:02d}' for i in range(1, 21)]
